@@ -1,8 +1,10 @@
 #!/bin/bash
-# maintenance (not a check): record the failing inputs of the known findings of a property, all tiers/seed classes
+# maintenance (not a check): record the failing inputs of the known findings of a property over every quick seed
+# and the thorough tier (C05: its four seed classes). Run after a generator change; never run by a check.
 cd /verif; id=$1; rm -f known_cases/$id.json
 export VERIF_RECORD_CASES=1
-./check $id quick >/dev/null
-for seed in 0 1 2 3; do VERIF_SEED=$seed ./check $id thorough >/dev/null; done
-python3 -c "
-import json; d=json.load(open('/verif/known_cases/$id.json')); print({k:len(v) for k,v in d.items()})"
+for seed in 0 1 2 3 4 5 6 7; do VERIF_SEED=$seed ./check $id quick >/dev/null; done
+tseeds="0 1"; [ $id = C05 ] && tseeds="0 1 2 3"
+for seed in $tseeds; do VERIF_SEED=$seed ./check $id thorough >/dev/null; done
+[ -f known_cases/$id.json ] && python3 -c "
+import json; d=json.load(open('/verif/known_cases/$id.json')); print('$id', {k[:60]:len(v) for k,v in d.items()})" || echo "$id: no known finding carries case identities"
